@@ -116,6 +116,28 @@ def register_keep(reg):
                  ('np.insert(self.labels, 0, 0)', 'self.labels'),
                  ('.difference(', '.intersection(')],
     ))
+    # get_index: the position of a label in the sorted label list (check_labels, assumed, raises
+    # for a label that is not in the image)
+    reg.record('SegmentationImageIndex', {'labels': ('seq', 'int')}, bases=('SegmentationImage',))
+    reg.add(Contract(
+        target=f'{SEG}.check_labels', props=['C05'], kind='method',
+        params={'self': 'SegmentationImageIndex', 'labels': 'int'},
+        requires=['exists(lambda k: self.labels[k] == labels, (0, len(self.labels)))'],
+        ensures=[], returns=None, assumed=True,
+        note='check_labels raises ValueError unless every given label is a positive label of the '
+             'image (its own logic -- np.setdiff1d -- is exercised by the bounded driver)',
+    ))
+    reg.add(Contract(
+        target=f'{SEG}.get_index', props=['C05', 'C07'], kind='method',
+        params={'self': 'SegmentationImageIndex', 'label': 'int'},
+        requires=['forall(lambda k, m: implies(k < m, self.labels[k] < self.labels[m]), '
+                  '(0, len(self.labels)), (0, len(self.labels)))',
+                  'exists(lambda k: self.labels[k] == label, (0, len(self.labels)))'],
+        ensures=[('the-position-of-the-label',
+                  'result >= 0 and result < len(self.labels) and self.labels[result] == label')],
+        mutants=[('np.searchsorted(self.labels, label)', 'np.searchsorted(self.labels, label) - 1'),
+                 ('np.searchsorted(self.labels, label)', 'np.searchsorted(self.labels, label + 1)')],
+    ))
     # remove_masked_labels(partial_overlap=False): of the labels touching the mask, only those
     # without a pixel outside it are removed
     reg.add(Contract(
